@@ -774,8 +774,8 @@ class DirectoryRecord:
         return num_extents, dirrecord_offset
 
     def _add_child(self, child, logical_block_size, allow_duplicate,
-                   check_overflow):
-        # type: (DirectoryRecord, int, bool, bool) -> bool
+                   check_overflow, defer_layout=False):
+        # type: (DirectoryRecord, int, bool, bool, bool) -> bool
         """
         An internal method to add a child to this object.  Note that this is
         called both during parsing and when adding a new object to the system,
@@ -789,6 +789,9 @@ class DirectoryRecord:
                            situations where duplicate children are allowed.
          check_overflow - Whether to check for overflow; if we are parsing, we
                           don't want to do this.
+         defer_layout - Whether to leave the extents and offsets of the
+                        children alone; the caller then has to call
+                        finish_tracking() after the last child.
         Returns:
          True if adding this child caused the directory to overflow into another
          extent, False otherwise.
@@ -865,6 +868,13 @@ class DirectoryRecord:
 
         if rr_index >= 0:
             self.rr_children.insert(rr_index, child)
+
+        if defer_layout and not check_overflow:
+            # The recalculation below walks over all of the children behind
+            # the new one.  Doing that for each record of a directory that is
+            # stored in descending order takes time quadratic in the size of
+            # the directory, so while parsing it is done once at the end.
+            return False
 
         # We now have to check if we need to add another logical block.
         # We have to iterate over the entire list again, because where we
@@ -956,8 +966,9 @@ class DirectoryRecord:
 
         return self._add_child(child, logical_block_size, allow_duplicate, True)
 
-    def track_child(self, child, logical_block_size, allow_duplicate=False):
-        # type: (DirectoryRecord, int, bool) -> None
+    def track_child(self, child, logical_block_size, allow_duplicate=False,
+                    defer_layout=False):
+        # type: (DirectoryRecord, int, bool, bool) -> None
         """
         Track an existing child of this directory record.
 
@@ -967,13 +978,34 @@ class DirectoryRecord:
                               descriptor.
          allow_duplicate - Whether to allow duplicate names, as there are
                            situations where duplicate children are allowed.
+         defer_layout - Whether to leave the extents and offsets of the
+                        children alone; the caller then has to call
+                        finish_tracking() after the last child.
         Returns:
          Nothing.
         """
         if not self.initialized:
             raise pycdlibexception.PyCdlibInternalError('Directory Record not initialized')
 
-        self._add_child(child, logical_block_size, allow_duplicate, False)
+        self._add_child(child, logical_block_size, allow_duplicate, False,
+                        defer_layout)
+
+    def finish_tracking(self, logical_block_size):
+        # type: (int) -> None
+        """
+        Calculate the extents and offsets of all children of this directory
+        record, after they were tracked with a deferred layout.
+
+        Parameters:
+         logical_block_size - The size of a logical block for this volume
+                              descriptor.
+        Returns:
+         Nothing.
+        """
+        if not self.initialized:
+            raise pycdlibexception.PyCdlibInternalError('Directory Record not initialized')
+
+        self._recalculate_extents_and_offsets(0, logical_block_size)
 
     def remove_child(self, child, index, logical_block_size):
         # type: (DirectoryRecord, int, int) -> bool
